@@ -44,7 +44,7 @@ var props = map[string]PropSpec{
 	"C15": {[]LoadSpec{coreRW}},
 	"C16": {[]LoadSpec{coreRW}},
 	"C17": {[]LoadSpec{coreRW}},
-	"C18": {[]LoadSpec{serverAll}},
+	"C18": {[]LoadSpec{serverAll, coreRW}},
 	"C19": {[]LoadSpec{serverAll, coreRW}},
 	"C20": {[]LoadSpec{coreRW}},
 }
@@ -114,6 +114,7 @@ type target struct {
 }
 
 var labelOrdinal = regexp.MustCompile(`#post\(\d+\)\[`)
+var invOrdinal = regexp.MustCompile(`#(inv-entry|inv-step)\(([RL]\d+)\.\d+\)\[`)
 
 func cmdCheck(args []string) int {
 	fs := flag.NewFlagSet("check", flag.ExitOnError)
@@ -278,6 +279,7 @@ func cmdCheck(args []string) int {
 				out := make([]string, len(xs))
 				for i, x := range xs {
 					out[i] = labelOrdinal.ReplaceAllString(x, "#post[")
+					out[i] = invOrdinal.ReplaceAllString(out[i], "#$1($2)[")
 				}
 				return out
 			}
